@@ -13,11 +13,14 @@ TraceSpec == TraceInit /\ [][Load]_<<i, mode, s>>
 
 R == Rec[i]
 O == R.obs
-C11ok == /\ O.result = "ok"
-         /\ O.printable_ok                 \* only printable characters for the mode
-         /\ O.parse_ok                     \* reads back as the kind it announces
-         /\ O.matches_orig                 \* ... and matches the original line
-         /\ O.neighbour_matches = 0        \* ... and no line with different content
+Good(o) == /\ o.result = "ok"
+           /\ o.printable_ok                 \* only printable characters for the mode
+           /\ o.parse_ok                     \* reads back as the kind it announces
+           /\ o.matches_orig                 \* ... and matches the original line
+           /\ o.neighbour_matches = 0        \* ... and no line with different content
+\* both ways by which scrut writes the text for a line: generated from output, and canonical rendering of an
+\* existing equal expectation ("skip": the line is not valid UTF-8, so it cannot be an equal expectation)
+C11ok == Good(O) /\ (O.render.result = "skip" \/ Good(O.render))
 \* variant 0 uses the spec's representative bytes: the text should be the intended encoding (else: drift)
 IntendedText == Encode(mode, s) \o (IF Marked(mode, s) THEN <<32, 40, 101, 115, 99, 97, 112, 101, 100, 41>> ELSE <<>>)
 Verdicts == (i > 0) =>
